@@ -474,6 +474,11 @@ def threadsafe_async_cache(
                         await waiter
                     except aio.CancelledError:
                         pass
+                elif waiter.cancelled() and not _current_task_cancelling():
+                    # Only the wait was cancelled, not this task: most
+                    # likely the caching loop is shutting down and
+                    # cancelled the cross-loop wait it was hosting.
+                    continue  # loop around and check
                 raise
 
     return _wrapper  # type: ignore[return-value]
@@ -1357,6 +1362,13 @@ async def run_aw_threadsafe(aw: Awaitable[T], loop: Loop) -> T:
 async def _aw_to_coro(aw: Awaitable[T]) -> T:
     """Wrap a given awaitable so it appears as a coroutine."""
     return await aw
+
+
+def _current_task_cancelling() -> bool:
+    """Has cancellation of the current task been requested? (3.11+)"""
+    task = aio.current_task()
+    cancelling = getattr(task, 'cancelling', None)
+    return bool(cancelling is not None and cancelling())
 
 
 async def _obj_to_aiter(o: T) -> AsyncIterable[T]:
